@@ -23,6 +23,20 @@ struct C07 : Harness {
             p.push_back(k);
             int calls = *irange(1, 3);
             for (int c = 0; c < calls; ++c) {
+                if (c > 0 && *chance(30)) {
+                    // re-key the same object, often with a key related to the first (same bytes, zero-extended to another
+                    // length class, truncated): a schedule kept from the earlier key would show as a mismatch
+                    Op k2 = p[2];
+                    if (kind != PM) {
+                        Bytes key = *k2.getb("key");
+                        int how = *irange(0, 3);
+                        if (how == 0) key.resize((size_t)*irange(bs, 3 * bs), 0);
+                        else if (how == 1) key = *gbytes((size_t)*gkeylen(bs, 3, 10));
+                        else if (how == 2 && key.size() > (size_t)bs) key.resize((size_t)*irange(bs, (int)key.size()));
+                        k2.set("key", key).set("len", (long long)key.size());
+                    } else if (*chance(50)) k2.set("rounds", *irange(5, 8)).set("mode", *irange(0, 1));
+                    p.push_back(k2);
+                }
                 int nblk = *irange(0, 40);
                 size_t n = (size_t)nblk * bs;
                 Op e = mkop(opn(kind, kind == PM ? "crypt" : (*chance(50) ? "enc" : "dec")));
